@@ -34,6 +34,10 @@ def check(layout, values, pad=None, list_ver="Kamstrup_V0001", apdu=None) -> lis
     names = RC.KAM_LAYOUTS[layout]
     pad = {int(k): n for k, n in (pad or {}).items()}
     body = RC.kam_body(names, values, list_ver, pad)
+    try:  # a call that fails (truncated body) comes first: it must leave nothing behind
+        kamstrup.decode_notification_body(body[:-1])
+    except Exception:  # noqa: BLE001
+        pass
     try:
         d1 = kamstrup.decode_notification_body(body)
         d2 = kamstrup.decode_frame_content(RC.llc(body, b"\x0c" + RC.dt12(*APDU), b"\x00\x00\x00\x00"))
